@@ -8,6 +8,7 @@ from common import Stats, mix
 
 PI = math.pi
 TOL = 1e-13
+TOL_TREE = 1e-11      # reference composition computed outside the library: fractions rounded once more
 
 
 class Env:
@@ -33,6 +34,22 @@ class Env:
     def composition(self, name):
         """(elements, mass fractions, nist density or None) from the library's own resolution order; None = unknown"""
         L = self.L
+        self.strict = False
+        if name is not None and name not in self.nist:
+            # the reference composition of a formula does not come from the library's parser: the strict recogniser written from the documented
+            # grammar (checks/c07.py) decides.  accept -> algebraic expansion (exact fractions) and atomic weights; reject -> unknown name;
+            # strings the documentation does not speak about -> whatever the parser returns (consistency only)
+            import c07
+            if not hasattr(self, "aw"):
+                self.aw = {z: w for z in range(1, 120) for w in [L.val("AtomicWeight", z)] if w}
+            verdict, cnt = c07.strict_parse(name.encode(), self.aw)
+            if verdict == "reject":
+                return None
+            if verdict == "accept":
+                self.strict = True
+                M = sum(float(c) * self.aw[z] for z, c in cnt.items())
+                els = sorted(cnt)
+                return (els, [float(cnt[z]) * self.aw[z] / M for z in els], None)
         b = name.encode() if name is not None else None
         cd = L.fn["CompoundParser"](b, None)
         if cd:
@@ -90,7 +107,7 @@ def check_cp(st, env, name, E, th, ph):
             st.cls("cp_value")
             if err is not None:
                 return ("spurious-error:" + fn, case, exp, dict(value=got, error=err))
-            if not math.isfinite(got) or xrl.relerr(got, exp) > TOL:
+            if not math.isfinite(got) or xrl.relerr(got, exp) > (TOL_TREE if env.strict else TOL):
                 return ("value:" + fn, case, exp, got)
             if len(comp[0]) >= 2:
                 st.nt_key(fn, name, E, th, ph)
@@ -196,12 +213,21 @@ def work(item):
     sv = mix(seed, "c06", config, part) % (2**31)
     weighable = formulas.SYMBOLS[:103]
     tree_st = formulas.formula_strategy(weighable)
+    env.tree_of = {}
 
     def name_strategy():
         nist = hs.sampled_from(env.nist)
-        form = tree_st.map(formulas.render)
+        def reg(tree):
+            s = formulas.render(tree)
+            env.tree_of[s] = tree
+            return s
+        form = tree_st.map(reg)
         bad = hs.one_of(hs.sampled_from(["", "Xx", "h2o", "H2O ", "Water", "water, liquid", "(H2O", "H2O)", "2H", "Rf", "H0", "Uuo", "He2..3"]),
-                        nist.map(lambda s: s + "x"), nist.map(lambda s: s[:-1]), form.map(lambda s: s + "("), form.map(lambda s: s.lower()))
+                        nist.map(lambda s: s + "x"), nist.map(lambda s: s[:-1]), form.map(lambda s: s + "("), form.map(lambda s: s.lower()),
+                        # a well-formed formula with something around it that text files and user input carry along
+                        hs.tuples(form, hs.sampled_from(["\n", "\r\n", "\r", "\t", " ", "\nNaCl", " # water", "\x0b", "\x0c", ";", ","])).map(lambda p: p[0] + p[1]),
+                        hs.tuples(hs.sampled_from(["\n", "\t", " ", "\ufeff"]), form).map(lambda p: p[0] + p[1]),
+                        nist.map(lambda s: s + "\n"), nist.map(lambda s: " " + s))
         return hs.one_of(form, form, form, nist, bad)
 
     if part == "nist":
@@ -229,9 +255,29 @@ def work(item):
                     r = check_refr(st, env, sym, E, rho)
                     if r:
                         st.violation(*r)
+        # group shapes: several groups on one level with and without multipliers, in every order, also nested (reference composition from the tree)
+        def el(sub=None):
+            return ("el", rng.choice(weighable[:92]), sub)
+
+        def grp(sub, n=2):
+            return ("grp", [el(rng.choice([None, "2", "4"])) for _ in range(n)], sub)
+        for _ in range(12):
+            m, m2 = rng.choice(["2", "3", "0.5", "12"]), rng.choice(["3", "1.5", "7"])
+            shapes = [[grp(m), grp(None)], [grp(None), grp(m)], [el("5"), grp(m), grp(None)], [grp(m), el(), grp(None), grp(m2)], [grp(m), grp(None), grp(None)],
+                      [("grp", [grp(m), grp(None)], m2)], [el(), ("grp", [grp(None), grp(m), el()], None), grp(m2)], [grp(m), grp("1")], [grp(m), grp(m2), el()]]
+            for tree in shapes:
+                nm = formulas.render(tree)
+                env.tree_of[nm] = tree
+                r = check_cp(st, env, nm, 10.0 ** rng.uniform(0, 2), rng.uniform(0, PI), rng.uniform(0, PI))
+                if r:
+                    st.violation(*r)
+                r = check_refr(st, env, nm, 10.0 ** rng.uniform(0, 2), rng.uniform(0.5, 10))
+                if r:
+                    st.violation(*r)
         # names that agree in a long prefix, one after the other, and trace-level subscripts
         stem = "Fe0.70Cr0.18Ni0.08Mn0.02Si0.01C0.0004P0.0002S0.0001"
-        for nm in (stem + "Mo0.01", stem + "Mo0.09", stem + "Mo0.01", "Si0.9999995B0.0000005", "SiO2(Fe2O3)0.0000004", "Polyethylene", "Polyethylene Terephthalate (Mylar)", "H2O", "H2O2"):
+        for nm in (stem + "Mo0.01", stem + "Mo0.09", stem + "Mo0.01", "Si0.9999995B0.0000005", "SiO2(Fe2O3)0.0000004", "Polyethylene", "Polyethylene Terephthalate (Mylar)", "H2O", "H2O2",
+                   "H2O\n", "SiO2\r\n", "Ca5(PO4)3F\r", "C6H12O6\nNaCl", "H2O\t", " H2O", "Water, Liquid\n", "\ufeffH2O"):
             for E in (8.0, 30.0):
                 r = check_cp(st, env, nm, E, 1.0, 0.5)
                 if r:
@@ -262,7 +308,8 @@ def run(ctx):
                 "subscripts) | one of the 180 NIST names | invalid name (mutations, unknown symbols, Rf, empty, NULL); E = 10^U(0,3) keV or "
                 "{0,-1,0.5,2000,range ends}; theta/phi in [-2pi,2pi] or special; density in (0,25] or {0,-1}; all %d-argument _CP functions and the "
                 "3 refractive-index entry points; configurations A and B; %d x %d examples per property and configuration + every NIST name. "
-                "Oracle: sum w_i f(Z_i) with the composition the library's own parser/NIST lookup returns (1e-13); K and C compared with values "
+                "Oracle: sum w_i f(Z_i); the composition of a formula is the algebraic expansion computed by the strict reference recogniser of C07 "
+                "(1e-11; names it rejects must fail; for strings the documentation does not speak about and for NIST names the library's own answer, 1e-13); K and C compared with values "
                 "derived from header constants (2e-5 / 1e-6) and recorded for constancy. non-trivial = successful call on a compound with "
                 ">= 2 elements, distinct by (function, compound, arguments)" % (3, parts, n))
     builds = c01.prepare(ctx)
@@ -273,7 +320,7 @@ def run(ctx):
         for p in range(parts):
             items.append((cfg, builds[cfg]["lib"], builds[cfg]["src"], p, n, ctx.seed))
     ctx.stats.merge(common.pmap(work, items))
-    ctx.assumptions = ["the composition returned by CompoundParser / GetCompoundDataNISTByName is taken as given (decided by C07/C15)",
+    ctx.assumptions = ["the composition returned by GetCompoundDataNISTByName is taken as given (decided by C15); atomic weights are the library's (C01)",
                        "elemental functions are decided by C02/C05"]
 
 
